@@ -27,12 +27,29 @@ RULE = ("random compositions of depth 1 and 2 over {ensemble(mean/median/min/max
         "(oracle only). non-trivial = composite ran without error, forecast not constant zero and "
         "at least one inner event recorded; distinct = distinct canonical JSON case")
 TRUSTED = [
+    "coq/C09/SiteLib.v: the vocabulary the regenerated Site.v is written in (what a call to an inner "
+    "estimator means in the model's terms: its state change + the event it records; pandas "
+    "concat(axis=1) / <reduction>(axis) / np.column_stack / pd.Series / iloc / .values; the first "
+    "split of SingleWindowSplitter on positions) and the translators translator/compose_c09.py, "
+    "translator/fcskel.py (fail closed; checked against the source on every run)",
     "the recording test doubles in props/c09.py (RecF, RecNaive, RecT*, RecReg, RecDetrender, "
     "RecDeseasonalizer): their logging is what 'data received by inner estimators' means here",
     "the reference composition (_Ref* classes in props/c09.py): the Python restatement of the "
     "theorems' right-hand sides, run on standalone copies of the same parts",
 ]
 MODELLED = [
+    "REGENERATED on every run and proved equal to coq/C09/Model.v for all arguments (C09/Bridge.v): the "
+    "statement skeleton of _fit_forecasters / _predict_forecasters (base/_meta.py), of "
+    "EnsembleForecaster.fit / update / _predict (incl. the aggfunc -> pandas reduction(axis) dispatch), "
+    "TransformedTargetForecaster._iter_transformers / fit / _predict / update / transform / "
+    "inverse_transform, MultiplexForecaster._check_selected_forecaster / _set_forecaster / fit / update / "
+    "_predict, StackingForecaster.fit / update / _predict, and _set_cutoff / _set_y_X / _update_y_X of "
+    "base/_sktime.py; call arguments bound by name against the API signatures read from "
+    "forecasting/base/_base.py and transformations/base.py",
+    "in the regenerated text a member forecaster is an abstract object (M_fit / M_update / M_predict); "
+    "Bridge.v ties the knot with the model's own recursive fit / update / predict; the horizon a "
+    "composite hands to member.predict is checked by the translator (the fh slot receives fh, or None "
+    "in the stacking forecaster) but not carried into Gallina (the model's horizon is fixed at fit)",
     "leaf semantics are abstract in the theorems (Section variables lfit/lpred/tfit/tupd/tapp/tinv/"
     "rfit/rpred); the concrete instance used for the correspondence models only the doubles and "
     "NaiveForecaster(strategy last / mean, sp=1)",
